@@ -909,6 +909,14 @@ var vfC13RawVariants = map[string]map[string][2]string{
 		"lf-only":    {"grpc-status: 0\n", "LF line ending"},
 		"bad-status": {"grpc-status: 99\r\n", "should be >= 0 && <= 16"},
 	},
+	// a Connect unary error: the whole body is the error JSON, under "Content-Encoding" absent, explicit identity or a real encoding
+	"connect-unary-error": {
+		"ok":            {`{"code":"invalid_argument","message":"boom"}`, ""},
+		"ok-details":    {`{"code":"internal","message":"m","details":[{"type":"google.protobuf.Empty","value":""}]}`, ""},
+		"bad-code":      {`{"code":"bogus","message":"m"}`, "not a recognized error code name"},
+		"unknown-key":   {`{"code":"internal","mesage":"typo"}`, "invalid key"},
+		"not-an-object": {`["internal"]`, "connect error JSON"},
+	},
 	"trailers-only": {
 		"ok":            {"3|bad%20thing", ""},
 		"bad-status":    {"99|", "should be >= 0 && <= 16"},
@@ -954,6 +962,21 @@ func vfC13RawE2ECheck(c vfC13RawE2E) error {
 		}
 		raw.Body = &conformancev1.RawHTTPResponse_Stream{Stream: &conformancev1.StreamContents{Items: []*conformancev1.StreamContents_StreamItem{
 			{Flags: 128, Payload: &conformancev1.MessageContents{Data: &conformancev1.MessageContents_Text{Text: content}}}}}}
+	case "connect-unary-error":
+		raw.StatusCode = 400
+		raw.Headers = []*conformancev1.Header{{Name: "Content-Type", Value: []string{"application/json"}}}
+		switch c.Encoding {
+		case "":
+			if c.Announce { // (re-used flag: the coding is spelled out although it is the identity)
+				raw.Headers = append(raw.Headers, &conformancev1.Header{Name: "Content-Encoding", Value: []string{"identity"}})
+			}
+			raw.Body = &conformancev1.RawHTTPResponse_Unary{Unary: &conformancev1.MessageContents{Data: &conformancev1.MessageContents_Text{Text: content}}}
+		default:
+			raw.Headers = append(raw.Headers, &conformancev1.Header{Name: "Content-Encoding", Value: []string{c.Encoding}})
+			comp := map[string]conformancev1.Compression{"gzip": conformancev1.Compression_COMPRESSION_GZIP, "br": conformancev1.Compression_COMPRESSION_BR, "zstd": conformancev1.Compression_COMPRESSION_ZSTD}[c.Encoding]
+			raw.Body = &conformancev1.RawHTTPResponse_Unary{Unary: &conformancev1.MessageContents{Data: &conformancev1.MessageContents_Text{Text: content}, Compression: comp}}
+		}
+		method, streamType = "Unary", conformancev1.StreamType_STREAM_TYPE_UNARY
 	default: // trailers-only: the status travels in the HTTP headers, the body is empty
 		parts := strings.SplitN(content, "|", 2)
 		protocol = conformancev1.Protocol_PROTOCOL_GRPC_WEB
@@ -967,7 +990,7 @@ func vfC13RawE2ECheck(c vfC13RawE2E) error {
 		}
 		method, streamType = "Unary", conformancev1.StreamType_STREAM_TYPE_UNARY
 	}
-	if c.Announce {
+	if c.Announce && c.Family != "connect-unary-error" {
 		raw.Headers = append(raw.Headers, &conformancev1.Header{Name: "Trailer", Value: []string{"X-Announced"}})
 	}
 	viaHost, viaPort := vfVia(srv.Host, srv.Port)
@@ -1011,7 +1034,7 @@ func TestVerifC13RawE2E(t *testing.T) {
 	defer verifsrv.StopCached()
 	verifkit.Run(t, "C13RawE2E", verifkit.Spec[vfC13RawE2E]{
 		Gen: func(t *rapid.T) vfC13RawE2E {
-			c := vfC13RawE2E{Family: rapid.SampledFrom([]string{"connect-endstream", "grpcweb-trailers", "trailers-only"}).Draw(t, "family"), H1: rapid.Bool().Draw(t, "h1")}
+			c := vfC13RawE2E{Family: rapid.SampledFrom([]string{"connect-endstream", "grpcweb-trailers", "trailers-only", "connect-unary-error"}).Draw(t, "family"), H1: rapid.Bool().Draw(t, "h1")}
 			var names []string
 			for n := range vfC13RawVariants[c.Family] {
 				names = append(names, n)
@@ -1023,6 +1046,9 @@ func TestVerifC13RawE2E(t *testing.T) {
 			// flagged as "HTTP trailers", so the announcement is only combined with trailers-only gRPC responses)
 			c.GRPC = c.Family == "trailers-only" && rapid.Bool().Draw(t, "grpc")
 			c.Announce = c.GRPC && rapid.IntRange(0, 1).Draw(t, "announce") == 0
+			if c.Family == "connect-unary-error" {
+				c.Announce = c.Encoding == "" && rapid.Bool().Draw(t, "explicitIdentity")
+			}
 			return c
 		},
 		Check: vfC13RawE2ECheck,
@@ -1035,7 +1061,7 @@ func TestVerifC13RawE2E(t *testing.T) {
 // ---- binary metadata: every value of every -bin key is looked at ----
 
 type vfBinMetaCase struct {
-	Where   string  `json:"where"` // headers, trailers, metadata
+	Where   string     `json:"where"` // headers, trailers, metadata
 	Entries []vfBinHdr `json:"entries"`
 }
 
